@@ -63,10 +63,10 @@ claim('C01', 'Coq proof by certified exhaustive exploration (closed state set co
       'or an error result whose exception is a root cause of the reference failure, or a propagated BaseException root cause; two schedules can never disagree; with caller cancellation the only further outcome is CancelledError. '
       'On every run 2400 (program, schedule) cases on the real engine are compared with the extracted model and with the extracted reference.',
       E_NOTE, design='4 (C01)')
-claim('C02', 'Coq proof: certified exhaustive exploration per catalogue program (no deadlock, bounded chains of loop steps, all schedules) + all-program lemmas (ready-queue consistency, cancellation never hangs) + deadlock oracle on the real engine on a virtual loop + correspondence',
+claim('C02', 'Coq proof: no-deadlock theorem for ALL plain programs and all schedules (invariants over configuration-level reachability) + certified exhaustive exploration per catalogue program (no deadlock, bounded chains of loop steps, all schedules) + all-program lemmas (ready-queue consistency, cancellation never hangs) + deadlock oracle on the real engine on a virtual loop + correspondence',
       'Theorems C02_holds_on_certified_programs, C02_catalogue (Properties/C02.v): for each of the 37 catalogue programs (incl. raising event managers / artifact stores, None and falsy values, a label without a case, failures at depth in one-of candidates) '
       'and EVERY schedule incl. caller cancellation, no reachable state is a deadlock (loop idle, nothing outstanding, run pending), the model interpreter never gives up, and at most 300 consecutive loop steps happen without an external completion. '
-      'C02_no_lost_wakeup_at_loop_level_partial holds for ALL programs: a Ready task is always queued. On every run the exact deadlock verdict of the virtual loop is evaluated on the real engine for 2400 generated (program, schedule) cases with collaborator faults.',
+      'C02_no_lost_wakeup_at_loop_level_partial holds for ALL programs: a Ready task is always queued. C02_on_plain_programs_no_deadlock (kind F): for EVERY plain program (graph without switch / one-of attributes, no body asking for another iteration; any size, shape, retry/default settings, modes, gated or raising event managers and stores) and every schedule incl. caller cancellation no reachable state is a deadlock, given launch / successor orders that are valid (decidable; checked of every recorded order). On every run the exact deadlock verdict of the virtual loop is evaluated on the real engine for 2400 generated (program, schedule) cases with collaborator faults.',
       E_NOTE + ' Not exhibited: a body or collaborator call that never returns (outside the statement).', design='4 (C02)')
 claim('C03', 'Coq proof by certified exhaustive exploration per catalogue program (arguments held by the retry-loop frames = reference arguments, all schedules) + oracle on every body invocation of the real engine against the extracted reference + correspondence',
       'Theorems C03_catalogue, C03_arguments_are_reference_arguments (Properties/C03.v): for each clean catalogue program and every schedule, the keyword arguments a body is / was / will again be invoked with (frames of the retry loop of every task) are '
